@@ -229,6 +229,11 @@ class PSpec:
 # ----------------------------------------------------------------------------
 # shapes and symbolic messages
 
+# dispatch family: constraints on the arbitrary payload bytes handed to a decoder (byte index -> allowed values), for programs whose
+# payload packets do not decode from every byte string (a payload that dispatches again needs a key of its own table)
+PAYLOAD_DOMAIN = {'disp_nested_samename': [(0, [5, 6, 7])], 'disp_nested_keyname': [(0, [1, 2])]}
+
+
 class KeyLit(int):
     """a numeric match key with its spelling in the DSL text (`007`, `010`): an int for every consumer, the spelling when printed"""
     def __new__(cls, text):
@@ -574,6 +579,12 @@ def family(tier):
     add('disp_nonroot_before', [Packet('Root', [F('basic', 'Len', typ='u16'), F('obj', 'Env', typ='Envelope'), F('basic', 'Tail', typ='u32')], root=True), pa, pb,
                                 Packet('Envelope', [F('basic', 'T', typ='u8'), F('match', 'Inner', key='T', pairs=[([1], 'Alpha'), ([2], 'Beta')])])],
         opts(), fam='dispatch', note='a non-root packet holding a match is embedded by the root; its payload packets are declared before it')
+    add('disp_nested_samename', [Packet('Root', [F('basic', 'Kind', typ='u8'), F('match', 'Body', key='Kind', pairs=[([1], 'Mid'), ([2], 'Alpha'), ([9], 'Gamma')])], root=True),
+                                 Packet('Mid', [F('basic', 'Sub', typ='u8'), F('match', 'Body', key='Sub', pairs=[([5], 'Alpha'), ([6, 7], 'Beta')])]), pa, pb, pc],
+        opts(), fam='dispatch', note='a match payload that dispatches again through a match field of the SAME name: each packet keeps its own table')
+    add('disp_nested_keyname', [Packet('Root', [F('basic', 'Kind', typ='u16'), F('match', 'Outer', key='Kind', pairs=[([1], 'Mid'), ([2], 'Beta')])], root=True),
+                                Packet('Mid', [F('basic', 'Kind', typ='u8'), F('match', 'Inner', key='Kind', pairs=[([1], 'Beta'), ([2], 'Alpha')])]), pa, pb],
+        opts(LittleEndian='true'), fam='dispatch', note='nested dispatch whose key fields share a name while the tables differ')
     add('disp_keyruns', [Packet('Root', [F('basic', 'Kind', typ='u8'), F('match', 'Payload', key='Kind',
                                                                         pairs=[([1], 'Alpha'), ([10, 11, 20], 'Beta'), ([12], 'Gamma'), ([30, 31, 32, 40], 'Alpha'), ([33], 'Beta')])], root=True), pa, pb, pc],
         opts(), fam='dispatch', note='key lists that are almost, but not quite, consecutive runs')
